@@ -127,10 +127,13 @@ RETS = {
     "int_tl_alias": R("PResult<u64>", "if sel % 2 == 0 { Ok(k) } else { Err(()) }"),
     "int_alias": R("PResult<u64>", "if sel % 2 == 0 { Ok(k) } else { Err(()) }", attr="#[int_result(PResult)]"),
     "no_int": R("Result<u64, u32>", "if sel % 2 == 0 { Ok(k) } else { Err(k as u32) }", attr="#[int_result]\n    #[no_int_result]"),
+    # borrows that do not depend on the receiver (`&'static`): every receiver kind, also a consumed one, returns them as a slice view
+    "static_str": R("&'static str", "{ let r: &'static str = [\"\", \"a\", \"static text\"][(sel % 3) as usize]; sent(r.as_ptr()); r }"),
+    "static_slice": R("&'static [u8]", "{ let r: &'static [u8] = [&BYTES0[..], &BYTES1[..], &BYTES3[..]][(sel % 3) as usize]; sent(r.as_ptr()); r }"),
     "int_fmt": R("Result<u64, ::core::fmt::Error>", "if sel % 2 == 0 { Ok(k) } else { Err(::core::fmt::Error) }", rdig="r.map_err(|_| 1u32).dig()", attr="#[int_result]"),
 }
 SELS = {"int_tl": 2, "int_tl_alias": 2, "res_ie": 2, "int_zst_drop": 2, "opt_ptr": 3, "opt_q": 3, "res_q": 2, "int_q": 2, "slice_u8": 5, "slice_mut": 4, "str": 4, "opt_u64": 3, "opt_ref": 2, "res": 2, "res_unit": 2, "int_u64": 2, "int_unit": 2,
-        "int_drop": 2, "int_io": 4, "int_unit_io": 3, "int_alias": 2, "no_int": 2, "int_fmt": 2}
+        "static_str": 3, "static_slice": 3, "int_drop": 2, "int_io": 4, "int_unit_io": 3, "int_alias": 2, "no_int": 2, "int_fmt": 2}
 
 
 def ret_ok(recv, ret):
@@ -344,7 +347,7 @@ def emit_trait(t):
 # spelling variants of shapes that are already in the grammar: swept per receiver and per position in both tiers,
 # left out of the thorough cross products
 LIGHT_ARGS = {"opt_q", "res_q", "opt_str", "opt_slice", "into2"}
-LIGHT_RETS = {"opt_q", "res_q", "int_q", "res_ie"}
+LIGHT_RETS = {"opt_q", "res_q", "int_q", "res_ie", "static_str", "static_slice"}
 # only meaningful under a trait-level attribute: never enumerated on their own
 TRAIT_LEVEL_RETS = {"int_tl", "int_tl_alias"}
 
@@ -411,6 +414,11 @@ def build(tier):
         "trait-level #[int_result] + method-level #[int_result(PResult)] + plain Result under the trait-level attribute", attr="#[int_result]")
     add([Method("ma", "ref", ["u64"], "int_u64"), Method("mb", "mut", ["u64"], "int_tl_alias")],
         "trait-level #[int_result(PResult)] + method-level bare #[int_result] + PResult under the trait-level attribute", attr="#[int_result(PResult)]")
+    # a Result ARGUMENT of a method that returns an integer-coded result (method-level and trait-level attribute): the attribute
+    # concerns the return value only, the argument is lowered to CResult as everywhere else
+    add([Method("m", "ref", ["res"], "int_u64")], "recv=ref args=[res] ret=int_u64 (Result argument of an int_result method)")
+    add([Method("ma", "mut", ["u64", "res"], "int_tl"), Method("mb", "ref", ["res_q"], "u64")],
+        "trait-level #[int_result]: Result arguments (second position / module-path spelling) of methods with and without a Result return", attr="#[int_result]")
     # trait methods that are themselves declared `extern "C"`: every wrapped shape is lowered as for ordinary methods
     EC = 'extern "C"'
     for a in ("slice_u8", "str", "opt_u64", "res", "slice_mut"):
